@@ -580,7 +580,7 @@ DUP_CONSEQUENCES = ("AckedExactlyOnce", "DeliveredInSenderOrder", "FinalComplete
 def tlc_validate(ctx, hist, name, cfg="ClusterTrace.cfg", mutate=None):
     text, n = hist.trace_text(mutate)
     r = ctx.tlc("ClusterTrace", cfg=cfg, workers=1, files={"trace.ndjson": text}, timeout=600,
-                name="tv-" + name, heap="3g")
+                name="tv-" + name, heap="1g")
     r.events = n
     return r
 
